@@ -229,11 +229,10 @@ def case_telescope(op, dim):
                 trans += 1
     else:
         raise KeyError(op)
-    if nz == 0:
-        from harness.interp import HarnessError
-
-        raise HarnessError("C04 telescope vacuous")
-    return CaseResult(fails=fails, states=states, transitions=trans, traces=trans, outcome=f"telescope:{op}:{dim}:{nz}")
+    # nz = impulses whose flux / update was non-zero. It is reported, not enforced: an operator that does
+    # nothing conserves trivially (that is C05/C12/C13's business), and a guard on the OUTPUT would turn a
+    # broken tree into a harness error instead of a verdict.
+    return CaseResult(fails=fails, states=states, transitions=trans, traces=trans, outcome=f"telescope:{op}:{dim}:{nz > 0}", extra={"impulses_with_nonzero_response": nz, "impulses": states})
 
 
 def case_step(cfg, state, velocity, forcing, seed):
